@@ -343,13 +343,14 @@ def parse_local(I, a):
     if any(is_sym(b) for b in bs):
         raise Unsupported('symbolic --time-limited-current')
     t = bytes(bs).decode(errors='replace')
-    m = re.fullmatch(r'(\d{4})-(\d\d)-(\d\d)[Tt ](\d\d):(\d\d):(\d\d)(?:\.\d+)?(Z|z|[+-]\d\d:\d\d)', t)
+    m = re.fullmatch(r'(\d{4})-(\d\d)-(\d\d)[Tt ](\d\d):(\d\d):(\d\d)(\.\d{1,9})?(Z|z|[+-]\d\d:\d\d)', t)
     if not m:
         if t == '' or not re.match(r'^\d', t):
             return err(Opaque('chrono_parse_error'))
         raise Unsupported('--time-limited-current outside the modelled RFC 3339 subset: ' + t)
     y, mo, d, h, mi, sec = map(int, m.groups()[:6])
-    z = m.group(7)
+    z = m.group(8)
+    nanos = int((m.group(7)[1:] + '0' * 9)[:9]) if m.group(7) else 0
     off = 0 if z in 'Zz' else (1 if z[0] == '+' else -1) * (int(z[1:3]) * 3600 + int(z[4:6]) * 60)
     try:
         import datetime
@@ -357,7 +358,7 @@ def parse_local(I, a):
     except ValueError:
         return err(Opaque('chrono_parse_error'))
     secs, frac = chrono_stub.instant_of(y, mo, d, h, mi, sec, off)
-    return ok(Opaque('instant', secs=secs, frac=frac))
+    return ok(Opaque('instant', secs=secs, frac=frac, nanos=nanos))
 
 
 _old_parse = EXACT['core::str::<impl str>::parse']
